@@ -239,7 +239,14 @@ package graph
 //@     invariant s3: s3(g)
 //@     invariant provider_set: node.Provider == provider
 //@     invariant mirror_others: forall j NodeKey :: j in g.nodes && !old(j in g.nodes) && j != nodeKey ==> len(g.nodes[j].Dependencies) == 0
+//@     invariant placeholders_new: forall i int :: 0 <= i && i < len(placeholders) ==> !old(placeholders[i] in g.nodes) && placeholders[i] != nodeKey && (placeholders[i] in g.nodes)
+//@     invariant only_placeholders_added: forall j NodeKey :: j in g.nodes ==> (old(j in g.nodes) || j == nodeKey || occurs(j, placeholders))
 //@     invariant old_deps_kept: forall j NodeKey :: old(j in g.nodes) && j != nodeKey ==> g.nodes[j] == old(g.nodes[j]) && g.nodes[j].Dependencies == old(g.nodes[j].Dependencies)
+//@   loop 2
+//@     invariant maps: g.nodes == old(g.nodes) && g.edges == old(g.edges) && g.nodes != nil && s3(g)
+//@     invariant old_kept: forall j NodeKey :: old(j in g.nodes) ==> (j in g.nodes)
+//@     invariant self_kept: nodeKey in g.nodes
+//@     invariant rest_are_pending: forall j NodeKey :: j in g.nodes ==> (old(j in g.nodes) || j == nodeKey || (exists i int :: idx <= i && i < len(placeholders) && placeholders[i] == j))
 //
 //@ pred occursN(p *Node, s []*Node) = exists i int :: 0 <= i && i < len(s) && s[i] == p
 //
